@@ -621,7 +621,10 @@ clientInput(void *data)
 #ifdef LIBVNCSERVER_WITH_WEBSOCKETS
             do {
                 rfbProcessClientMessage(cl);
-            } while (webSocketsHasDataInBuffer(cl));
+                /* once rfbCloseClient() has marked the client for shutdown nothing it has
+                   sent is processed any more, also not the rest of the same WebSocket frame
+                   (the single-threaded loop stops on the closed socket in the same way) */
+            } while (cl->state != RFB_SHUTDOWN && webSocketsHasDataInBuffer(cl));
 #else
             rfbProcessClientMessage(cl);
 #endif
